@@ -15,7 +15,7 @@ import (
 
 func init() {
 	register(&Rule{
-		ID: "DP", Props: []string{"C06"}, Min: 5,
+		ID: "DP", Props: []string{"C06"}, Min: 4,
 		Doc: `merge accounting: (1) in BioSequence.Merge the value given to SetCount depends on receiver.Count() and tomerge.Count() and SetCount is executed unconditionally;
 (2) in StatsPlusOne the stored statistic depends on the old entry and on desc.Weight(toAdd); (3) in StatsOnValues.Merge the stored entry depends on both operands;
 (4) in BioSequenceSlice.Merge every element of sequences[1:] is merged into the first on every path of the loop; (5) write-back: StatsOn may return a map that is not the one
